@@ -123,7 +123,8 @@ func (sc c18Scenario) files() (cur string, files map[string]string, expect []c18
 		case "cur", "inc":
 			return true
 		case "sib":
-			return sc.Root
+			// "drop-sib": the root journal stops including the sibling
+			return sc.Root && sc.Via != "drop-sib"
 		}
 		return false
 	}
@@ -206,6 +207,8 @@ func (sc c18Scenario) features() string {
 		before += ", declarations added to the current file by an edit"
 	case "edit-sib":
 		before += ", declarations added to the sibling file by an edit"
+	case "drop-sib":
+		before += ", sibling dropped from the root journal by an edit after a first analysis"
 	}
 	if sc.Outside {
 		before += ", current file outside the root journal's tree"
@@ -256,6 +259,14 @@ func c18Run(c *core.Ctx, dir string, sc c18Scenario) {
 		s.DidChangeFull(su, c18WithoutDeclarations(files["sib.journal"]), 2)
 		s.DidOpen(uri, cur)
 		s.DidChangeFull(su, files["sib.journal"], 2)
+		s.DidChangeFull(uri, cur, 2)
+	case "drop-sib":
+		// the current file is analysed while the sibling still belongs to the
+		// workspace; then the root journal drops its include of the sibling
+		s.DidOpen(uri, cur)
+		mu := wire.URI(filepath.Join(dir, "main.journal"))
+		s.DidOpen(mu, files["main.journal"])
+		s.DidChangeFull(mu, strings.Replace(files["main.journal"], "include sib.journal\n", "; sib.journal is not included any more\n", 1), 2)
 		s.DidChangeFull(uri, cur, 2)
 	default:
 		s.DidOpen(uri, cur)
@@ -418,6 +429,8 @@ func checkC18(c *core.Ctx) {
 								if root && (ad == "sib" || cd == "sib") {
 									e := sc
 									e.Via = "edit-sib"
+									c18Run(c, dir, e)
+									e.Via = "drop-sib"
 									c18Run(c, dir, e)
 								}
 							}
